@@ -5,6 +5,7 @@ import (
 	"os"
 	"path/filepath"
 	"sync"
+	"sync/atomic"
 
 	"go4.org/jsonconfig"
 	"perkeep.org/pkg/blobserver"
@@ -204,6 +205,32 @@ func (w *World) Restart(graceful bool) {
 	w.mu.Lock()
 	w.gen = g
 	w.mu.Unlock()
+}
+
+// --- the "verifsim" storage type ---
+//
+// perkeep's low-level server configuration names storage types; "verifsim" is
+// registered here so that a whole server built by serverinit can stand on a
+// simulated store (with the run's fault plan) instead of a real one. The hook
+// says which store a name means in the current run.
+
+var simStorageHook atomic.Value // func(name string) (blobserver.Storage, error)
+
+// SetSimStorageHook installs the resolver of "verifsim" handler arguments.
+func SetSimStorageHook(f func(name string) (blobserver.Storage, error)) { simStorageHook.Store(f) }
+
+func init() {
+	blobserver.RegisterStorageConstructor("verifsim", func(_ blobserver.Loader, conf jsonconfig.Obj) (blobserver.Storage, error) {
+		name := conf.RequiredString("name")
+		if err := conf.Validate(); err != nil {
+			return nil, err
+		}
+		f, _ := simStorageHook.Load().(func(name string) (blobserver.Storage, error))
+		if f == nil {
+			return nil, fmt.Errorf("verifsim storage %q: no simulated world in this run", name)
+		}
+		return f(name)
+	})
 }
 
 // --- blobserver.Loader ---
